@@ -20,7 +20,7 @@ Proof. repeat split. Qed.
 Theorem sqlstate_lifecycle_l : forall es e, sq_run (es ++ [e]) = sq_step None e.
 Proof.
   intros es e. unfold sq_run. rewrite fold_left_app. cbn [fold_left].
-  destruct e; [reflexivity|]. unfold sq_step. reflexivity.
+  destruct e; [reflexivity| |reflexivity]. unfold sq_step. reflexivity.
 Qed.
 
 Theorem sqlstate_after_success_l : forall es, sq_run (es ++ [ExecOk]) = None.
